@@ -52,6 +52,8 @@ type NodeCfg struct {
 	FDMs      int      `json:"fdMs,omitempty"`      // failure detection timeout; 0 = library default (40 s)
 	GossipMs  int      `json:"gossipMs,omitempty"`  // discovery interval; 0 = library default (1 s)
 	SuspectMs int      `json:"suspectMs,omitempty"` // suspect confirm duration; 0 = none (library default)
+	RateLimit int      `json:"rateLimit,omitempty"` // gossip rate limit, messages per second; 0 = none (library default)
+	RateBurst int      `json:"rateBurst,omitempty"`
 }
 
 // Fault is one scheduled event of the fault phase.
@@ -662,6 +664,9 @@ func (s *sim) startNode(i int, how string) {
 	}
 	if c.SuspectMs > 0 {
 		opts = append(opts, vivid.WithClusterSuspectConfirmDuration(time.Duration(c.SuspectMs)*time.Millisecond))
+	}
+	if c.RateLimit > 0 {
+		opts = append(opts, vivid.WithClusterGossipRateLimit(float64(c.RateLimit), c.RateBurst))
 	}
 	inc := 0
 	if old := s.nodes[i]; old != nil {
